@@ -487,7 +487,16 @@ func c14Build(c c14StructCase) c14Case {
 			n = 1
 		}
 		for i := 0; i < n; i++ {
-			fmt.Fprintf(&b, "leaf l%d { type leafref { path \"../l%d\"; } } ", i, (i+1)%n)
+			switch c.V % 4 {
+			case 1: // the way back leads through the member of a union
+				fmt.Fprintf(&b, "leaf l%d { type union { type leafref { path \"../l%d\"; } type int32; } } ", i, (i+1)%n)
+			case 2: // ... through a typedef
+				fmt.Fprintf(&b, "typedef t%d { type leafref { path \"../l%d\"; } } leaf l%d { type t%d; } ", i, (i+1)%n, i, i)
+			case 3: // ... through a union in a typedef
+				fmt.Fprintf(&b, "typedef t%d { type union { type int32; type leafref { path \"../l%d\"; } } } leaf l%d { type t%d; } ", i, (i+1)%n, i, i)
+			default:
+				fmt.Fprintf(&b, "leaf l%d { type leafref { path \"../l%d\"; } } ", i, (i+1)%n)
+			}
 		}
 		b.WriteString("}")
 		out.Text = b.String()
